@@ -2366,3 +2366,53 @@ func c14VRFFallback(c *Ctx) {
 	}
 	c.Check(ok && n > 0, "C14.entropy", inst, c.P.Pos(fn.Pos()), "the counter is incremented only under a test against MaxValidatorsPerEntity", "the number of proofs compared with MinValidators counts every node with a proof, not the nodes that can be elected (at most MaxValidatorsPerEntity per entity): when one entity's nodes submitted the proofs the entropy fallback is not taken, too few validators are elected and the election fails — the scheduler's BeginBlock halts the chain although eligible validators exist")
 }
+
+// c15RewardOrder (seed C15r4/12): a reward with commission first raises the pool balance by the non-commission part
+// (all existing shares gain) and only then deposits the commission at the new price: the entity's commission shares
+// must not take part in the very reward they are the commission of. In both reward functions no move of reward into
+// the active pool balance is reachable after the commission Deposit.
+func c15RewardOrder(c *Ctx) {
+	const sp = "consensus/cometbft/apps/staking/state"
+	n := 0
+	for _, name := range []string{sp + ".(*MutableState).AddRewardSingleAttenuated", sp + ".(*MutableState).AddRewards"} {
+		fn := c.needFn("C15.order", name)
+		if fn == nil {
+			continue
+		}
+		c.Analysed[fname(fn)] = true
+		var deps, moves []ssa.Instruction
+		for _, call := range callsIn(fn) {
+			switch calleeName(call) {
+			case "staking/api.(*SharePool).Deposit":
+				deps = append(deps, call)
+			case "common/quantity.Move":
+				a := allArgs(call)
+				if len(a) == 3 {
+					if fa, ok := a[0].(*ssa.FieldAddr); ok && fieldName(fa.X.Type(), fa.Field) == "Balance" && namedOf(derefType(fa.X.Type())) == "staking/api.SharePool" {
+						moves = append(moves, call)
+					}
+				}
+			}
+		}
+		n++
+		ok := len(deps) > 0 && len(moves) > 0
+		site := c.P.Pos(fn.Pos())
+		for _, d := range deps {
+			// within one iteration: do not walk the loop back edge into the next entity's reward
+			cut := NewCut()
+			for _, b := range fn.Blocks {
+				for si, s := range b.Succs {
+					if s.Dominates(b) && s != b {
+						cut.AddEdges(Edge{b, si})
+					}
+				}
+			}
+			if hit := Reach(fn, d, nil, anyOf(moves), cut); hit != nil {
+				ok = false
+				site = c.P.InstrPos(hit)
+			}
+		}
+		c.Check(ok, "C15.order", fname(fn)+":the reward is added to the pool before the commission is deposited", site, "no move into the pool balance is reachable after the commission Deposit (within one reward)", "the commission is deposited (shares minted at the current price) before the non-commission part of the reward is added to the pool balance: the commission shares are minted at the pre-reward price and then take part in the reward — the entity gets more, every other delegator less than its share of the reward")
+	}
+	c.Floor("C15.order", n, 2, "reward functions with commission")
+}
